@@ -354,3 +354,22 @@ void harness_peer_leaves_with_everything(void)
 	CHECK(verif_live_blocks == baseline && timers_alive() == 0, "C07.everything_released_once_all_peers_are_gone");
 	WITNESS_END();
 }
+
+/* ================================================================== a peer sets its own state (the request is routed back to itself); a bystander's
+ * disconnect must not answer or drop it */
+void harness_self_request_bystander(void)
+{
+	setup();
+	int v = (int)nd_range(0, 999), w = (int)nd_range(0, 999);
+	int k = do_set(&O, 7, v);                     /* caller == owner */
+	__CPROVER_assume(k >= 0);
+	CHECK(LOG[k].to == &O && LOG[k].has_value && LOG[k].value_int == v, "C03.routed_request_carries_path_and_value_unchanged");
+	free_peer_resources(&C);                      /* third peer disconnects */
+	dead_peer = &C;
+	CHECK(answers_to(&O, 7) == 0 && timers_alive() == 1, "C03.bystander_disconnect_does_not_answer_others_requests");
+	int r = reply(&O, LOG[k].id_str, 0, w);
+	struct sent *a = answer_to(&O, 7);
+	CHECK(r >= 0 && answers_to(&O, 7) == 1 && a && a->has_result && a->value_int == w, "C03.answer_independent_of_bystander_disconnect");
+	CHECK(timers_alive() == 0, "C07.request_timer_destroyed_after_reply");
+	WITNESS_END();
+}
